@@ -237,6 +237,23 @@ chk("C10",
     "machine-checked proof in Coq (simulation relation by induction over iterations; real analysis) + expression extraction/paired-run correspondence",
     "DESIGN.md section 6, C10")
 
+chk("C03",
+    "Coq theorems: Metropolis-Hastings detailed balance for every pair of states on any state space (proposal "
+    "reversible w.r.t. a positive reference m, acceptance min(1, pi(y)m(x)/(pi(x)m(y)))) and invariance on finite "
+    "spaces; the exponent extracted from the code is the log of that ratio with pi = L^beta and m = t_nu (tpCN) / "
+    "Lebesgue (RWM); the extracted gamma shape/scale make the drawn scale the inverse-gamma conditional of the t scale "
+    "mixture; the Crank-Nicolson energy Qf(x)+Qf(y-ax)/sigma^2 is symmetric for every symmetric bilinear form when "
+    "a^2+sigma^2=1 (MathComp), hence the joint density of (x,s,y) is symmetric; the extracted coefficients satisfy "
+    "a^2+sigma^2=1. Hard boundaries: the redraw-until-inside rule is in detailed balance with pi*P_in, not pi (the "
+    "known finding), while reject-outside would be with pi. Tie: Gen.Kernel/Gen.Shift + Links; injected-randomness "
+    "proposals, gamma parameters and correction factors against verified enclosures of the generated definitions; the "
+    "Metropolis test with injected uniforms; fixed-seed ensemble stationarity (interior, periodic, reflective; hard boundary = finding).",
+    "Trusted: Coq kernel; Reals axioms/classic/funext (named in evidence); python extractor/harness; the lift from "
+    "pointwise density identities to measures and the two classical integral facts are not formalised; step-size "
+    "adaptation, correlated reflective folds and tpCN with folded coordinates are not claimed.",
+    "machine-checked proof in Coq (real analysis; MathComp bilinear algebra) + formula extraction/verified-enclosure correspondence + ensemble replays",
+    "DESIGN.md section 6, C03")
+
 for pid in [f"C{i:02d}" for i in range(1, 21)]:
     if pid not in CHECKS:
         NA[pid] = "check not built yet in this session (planned in DESIGN.md section 6); not claimed"
